@@ -243,6 +243,44 @@ def _memetic(name):
     return lambda env, rng: _soln(_algo(name, rng, mod="NSGA2MemeticSubsetGeneticAlgorithm").minimize(_quad(two=True)))
 
 
+def prebuild(env):
+    """objects that exist BEFORE the re-seeding (part of "whatever was executed before"): stochastic components built with
+    the default generator, and shallow / deep copies of them; the calls below use them after the seeding"""
+    import copy
+    from pybrops.breed.prot.pt.G_E_Phenotyping import G_E_Phenotyping
+    from pybrops.breed.prot.mate.TwoWayCross import TwoWayCross
+    from pybrops.breed.prot.mate.TwoWayDHCross import TwoWayDHCross
+    from pybrops.breed.prot.sel.EstimatedBreedingValueSelection import EstimatedBreedingValueSubsetSelection
+    pre = {}
+    pre["pheno"] = G_E_Phenotyping(env.gm, nenv=2, nrep=2, var_env=1.0, var_rep=0.5, var_err=2.0)
+    pre["mate2w"] = TwoWayCross(progeny_counter=0, family_counter=0)
+    pre["mate2wdh"] = TwoWayDHCross(progeny_counter=0, family_counter=0)
+    pre["climber"] = _algo("SteepestDescentSubsetHillClimber", None)
+    pre["selebv"] = EstimatedBreedingValueSubsetSelection(ncross=2, nparent=2, nmating=1, nprogeny=1, nobj=1, ntrait=2, obj_trans=_tsum,
+                                                          obj_trans_kwargs={}, soalgo=_algo("SortingSubsetOptimizationAlgorithm", None), unscale=True)
+    for k in list(pre):
+        pre[k + ":deepcopy"] = copy.deepcopy(pre[k])
+        pre[k + ":copy"] = copy.copy(pre[k])
+    env.pre = pre
+
+
+def _preobj(key, how):
+    def fn(env, rng):
+        o = env.pre[key + how]
+        if key == "pheno":
+            return o.phenotype(env.pg)
+        if key.startswith("mate"):
+            o.progeny_counter = 0; o.family_counter = 0
+            xc = np.array([[i % env.n, (i + 1) % env.n] for i in range(3)], dtype="int64")
+            out = o.mate(env.pg, xc, 1, 2, nself=1)
+            return [np.asarray(out.mat), np.asarray(out.taxa), np.asarray(out.taxa_grp)]
+        if key == "climber":
+            return _soln(o.minimize(_quad()))
+        cfg = o.select(pgmat=env.pg, gmat=env.pg, ptdf=None, bvmat=env.bv, gpmod=env.gm, t_cur=0, t_max=1, miscout=None)
+        return [np.asarray(cfg.xconfig_decn), np.asarray(cfg.xconfig)]
+    return fn
+
+
 OPS = {
     # name: (kind, function, accepts an explicit generator)
     "tiled_choice": ("lib", _sampling("tiled_choice"), True),
@@ -306,6 +344,17 @@ OPS = {
     "pure_model": ("pure", _pure("model"), False),
     "pure_genostats": ("pure", _pure("genostats"), False),
     "pure_xoprob": ("pure", _pure("xoprob"), False),
+    "pre_pheno": ("lib", _preobj("pheno", ""), False),
+    "pre_pheno_deepcopied": ("lib", _preobj("pheno", ":deepcopy"), False),
+    "pre_pheno_copied": ("lib", _preobj("pheno", ":copy"), False),
+    "pre_mate2w": ("lib", _preobj("mate2w", ""), False),
+    "pre_mate2w_deepcopied": ("lib", _preobj("mate2w", ":deepcopy"), False),
+    "pre_mate2w_copied": ("lib", _preobj("mate2w", ":copy"), False),
+    "pre_mate2wdh_deepcopied": ("lib", _preobj("mate2wdh", ":deepcopy"), False),
+    "pre_climber_deepcopied": ("lib", _preobj("climber", ":deepcopy"), False),
+    "pre_climber_copied": ("lib", _preobj("climber", ":copy"), False),
+    "pre_selebv_deepcopied": ("select", _preobj("selebv", ":deepcopy"), False),
+    "pre_selebv_copied": ("select", _preobj("selebv", ":copy"), False),
     "select_embv": ("select", lambda env, rng: _select("ExpectedMaximumBreedingValueSubsetSelection", "ExpectedMaximumBreedingValueSelection",
                                                       lambda r: _algo("SortingSubsetOptimizationAlgorithm", None), nrep=2,
                                                       mateprot=_twdh(rng), unique_parents=True)(env, rng), True),
@@ -330,6 +379,13 @@ def noise(variant, env):
     import pybrops.core.random.prng as prng
     if variant == "A":
         return
+    if variant == "A2":
+        # copy A's own kind of history (never the same as copy B's: the two interpreters must not reach the program with
+        # equal global states by accident)
+        np.random.random(2); random.random()
+        prng.seed(77); prng.spawn(1); np.random.standard_normal(4)
+        OPS["mate_2wdh"][1](env, None)
+        return
     random.random(); random.getrandbits(70); np.random.random(5); np.random.standard_normal(3)
     prng.seed(99); prng.spawn(2)
     OPS["mate_2w"][1](env, None); OPS["ga_subset"][1](env, None); OPS["xcfg_real"][1](env, None)
@@ -342,7 +398,7 @@ def execute(programs, variant):
     out = []
     for pi, prog in enumerate(programs):
         if variant == "B" or pi % 2:
-            noise(variant if variant == "B" else "B" if pi % 4 == 1 else "A", env)
+            noise(variant if variant == "B" else "A2" if pi % 4 == 1 else "A", env)
         if variant == "B":
             # "whatever was executed before": in this copy every call of the program has already been made once (any
             # state a call leaves behind in the process -- caches, module-level tables -- is then part of the history)
@@ -352,6 +408,7 @@ def execute(programs, variant):
                         OPS[nm][1](env, None)
                 except Exception:
                     pass
+        prebuild(env)
         gens = {}
         evs = []
         for op in prog:
